@@ -2,6 +2,7 @@
   C05 — command sequences acknowledge every packet once and stop at the final packet.
 -/
 import ZvtVerif.Properties.C06
+import ZvtVerif.Spec.Layout
 namespace Zvt.C05
 open Zvt C06
 
@@ -99,6 +100,11 @@ theorem consumed_rounds (rs : List (Nat × Nat × Val)) (tail : List Ev) :
   induction rs with
   | nil => simp [rounds]
   | cons r rs ih => obtain ⟨n, i, v⟩ := r; simp [rounds, consumed, ih]; omega
+
+/-- the table of exchanges translated from the `impl Sequence` blocks on this run — input packet, reply
+enum, kind (`once` / standard `loop`, recognised token by token) and the set of final packets — equals the
+specification's (Appendix A of DESIGN.md). -/
+theorem sequences_eq_spec : Generated.sequences = Spec.sequences := by decide +kernel
 
 /-- every `impl Sequence` the translator found is of a modelled kind (`once` or the standard `loop`). -/
 theorem generated_sequences_covered :
